@@ -184,6 +184,18 @@ var knownClasses = []knownClass{
 			comp, ok := in.owner[c.cg].(*ast.Comprehension)
 			return ok && c.off >= comp.End().Offset()
 		})},
+	// class W, old formatter only: a line comment directly behind a binary operator
+	// (`a + // c`) is moved to the end of the expression, into the next operand, or
+	// the output does not parse (witness corpus/C08/W-comment-after-operator.cue).
+	// NOT for the default formatter: there such a comment is handled (chain tables).
+	{id: "W", short: "v1-line-comment-after-binary-operator", v1: true, s0: true, s1: true,
+		mask: commentMask(func(in *srcInfo, c placedComment) bool {
+			if c.prev == nil || c.prev.tok != "op" || !c.line {
+				return false
+			}
+			_, ok := c.prev.node.(*ast.BinaryExpr)
+			return ok
+		})},
 	{id: "K6", short: "line-comment-after-comprehension-brace", v1: true, v2: true, s0: true, s1: true,
 		mask: commentMask(func(in *srcInfo, c placedComment) bool {
 			if c.prev == nil || c.prev.tok != "{" || !c.line {
